@@ -326,6 +326,11 @@ REGISTRY["C13"]["teq"].append({"engine": "conc", "quick": {"n": 24, "mode": "mem
 REGISTRY["C12"]["teq"].append(seq({"only": "limited", "autocheck": 1, "n": 6, "ops": 80, "seedoff": 212}, {"only": "limited", "autocheck": 1, "seedoff": 212}))
 REGISTRY["C13"]["teq"].append(seq({"only": "limited", "n": 10, "ops": 80, "seedoff": 113}, {"only": "limited", "seedoff": 113}))
 REGISTRY["C11"]["teq"].append(_f1(11))
+REGISTRY["C05"]["teq"].append({"engine": "crash", "quick": {"n": 1, "points": 12, "seedoff": 5}, "thorough": {"tier": "thorough", "seedoff": 5},
+                                "oracle": True, "mismatch_is_failure": False, "timeout": 3400,
+                                "nontrivial": lambda case, res: "plan=" in case and not case.endswith("none") and res.startswith("ok") and "keys=-" not in res,
+                                "distinct_key": lambda case, res: res,
+                                "what": "the partition after recovery: the C02 crash images (several generations of a key on the device in either sector order, expired winners, torn batches, tiny devices filled to their last block) reopened by the real code; in the reopening child the free blocks plus the blocks of the recovered records' extents must be exactly the data area (oracle), and the free-space statistics must equal Model.Recovery.open_image's"})
 for _pid in ("C02", "C09"):
     REGISTRY[_pid]["teq"].append({"engine": "gate", "quick": {"n": 8000, "seedoff": 60}, "thorough": {"n": 300000, "seedoff": 60},
                                   "oracle": False, "mismatch_is_failure": True, "timeout": 3400,
